@@ -21,7 +21,12 @@ EXPLANATION = (
     "constant carries its own type and a parameter the type it has in the action; numeric trees are grounded leaf by leaf the same "
     "way. C20.complete: grounding an effect group loops over all discrete and all numeric effects without a filter and keeps the "
     "polarity; the precondition translation attaches every operand (C02.translate); the operator builds one group for the simple "
-    "effects and one per conditional effect. C20.dupkeys: the grounded signature of a numeric leaf is keyed by the argument value."
+    "effects and one per conditional effect. C20.dupkeys: the grounded signature of a numeric leaf is keyed by the argument value. "
+    "C20.constants (literal-typed): the signature handed to the GroundedPredicate construction in ground_predicate receives the constant's own "
+    "type / the action parameter's type (the public typing pass read in place). C20.numtree: under the three valuations of (the lifted node "
+    "is a leaf, it holds a PDDLFunction) the returned node is a newly constructed AnyNode whose value is the lifted node's value (operator, "
+    "number) / the PDDLFunction constructed by the grounding (fluent), a leaf stays a leaf, and operand i of an operator node is the "
+    "recursive grounding of operand i of the lifted node."
 )
 UNDECIDED = "set equality of the reported literals with the substituted schema for all calls (only the structural clauses above)"
 
@@ -251,8 +256,37 @@ def rule_constants(repo: Repo) -> RuleResult:
             r.ok({"numeric_leaf_constant": const, "key": "the constant's name" if const else "parameters_map[parameter]"})
         else:
             r.fail(Finding("C20.constants", h, f"leaf:const={const}", f"numeric leaf grounding is wrong when the argument is{'' if const else ' not'} a constant"))
-    r.require_sites(6)
+    # the typing is applied to the literal that is reported: the signature handed to the GroundedPredicate construction receives, per
+    # argument, the constant's own type / the type of the action parameter (the public typing pass is read in place)
+    lit = L.fn(repo, f"{GU}::ground_predicate", also={TYPING_PASS})
+    pl = L.prov(repo, lit)
+    Gl = L.Guards(lit, _const_matcher(pl))
+    lctor = [c for c in L.calls_in(lit.node) if callee_name(c) == "GroundedPredicate"]
+    linit = repo.find_method("GroundedPredicate", "__init__")
+    lsg = L.arg_of(lctor[0], linit, "signature") if lctor else None
+    if lsg is None:
+        raise AnalysisError("ground_predicate: GroundedPredicate construction / its signature argument not found")
+    for const in (True, False):
+        r.site(f"{lit.qn} [typed literal, constant: {const}]")
+        if "const" not in Gl.atoms_seen:
+            r.fail(Finding("C20.constants", lit, f"literal-typed:const={const}", "grounding a literal never tests whether an argument is a domain constant: "
+                           "the typed form cannot give a constant its own type", node=lsg))
+            continue
+        vals = {e for k, e in L.map_entries(pl.trace(lsg, keys=True, under=Gl.under({"const": const}))) if k in ("value", "whole") and "askey" not in e}
+        own = [x for x in vals if x[0] == "param:domain" and "attr:constants" in x and x[-1] == "attr:type"] if const else \
+            [x for x in vals if x[:2] == ("param:action", "attr:signature") and "attr:constants" not in x]
+        if own:
+            r.ok({"literal_signature": "typed in ground_predicate", "constant": const, "type_from": "domain.constants[name].type" if const else "action.signature[name]"})
+        else:
+            r.fail(Finding("C20.constants", lit, f"literal-typed:const={const}", f"the signature of the grounded literal never receives the type of "
+                           f"{'the constant' if const else 'the action parameter'}: the typed form keeps the types of the predicate's declaration "
+                           f"(values come from {sorted(' . '.join(x[:4]) for x in vals)[:2]})", node=lsg))
+    r.require_sites(8)
     return r
+
+
+# the public pass that re-types a grounded literal's signature (property anchor); read in place inside ground_predicate
+TYPING_PASS = "fix_grounded_predicate_types"
 
 
 def rule_complete(repo: Repo) -> RuleResult:
@@ -508,10 +542,205 @@ def rule_freshleaf(repo: Repo, rid: str = "C20.freshleaf") -> RuleResult:
     return r
 
 
+# The three kinds of node of a (binary) calculation tree; atoms: 'leaf' = the lifted node has no operands, 'isfn' = it holds a fluent.
+# (an operator node holds the operator's name, so 'isfn' is false there)
+NUMTREE_CASES = (
+    ("operator", {"leaf": False, "isfn": False}),
+    ("number-leaf", {"leaf": True, "isfn": False}),
+    ("fluent-leaf", {"leaf": True, "isfn": True}),
+)
+# operand i of the grounded operator node is the grounding of operand i of the lifted node: `(- a b)` is not `(- b a)` / `(- b b)`
+OPERAND_POSITIONS = (0, 1)
+# the steps by which a value becomes the operands of a constructed tree node (AnyNode(parent=None, children=None, **fields))
+CHILDREN_STEPS = ("kw:children:AnyNode", "arg1:AnyNode")
+VALUE_STEP = "kw:value:AnyNode"
+
+
+def _numtree_function(repo: Repo, h: FuncInfo):
+    """(function, node paths, Guards) to read the node-by-node grounding from: the public entry point with the recursive worker inlined
+    once, else the worker on its own.  Node paths = provenance of 'the lifted node that is being grounded'."""
+    from ..inline import flatten
+    funcs = [(h, {(f"param:{x}", "attr:root") for x in h.params})]
+    for c in L.calls_in(h.node):
+        _cat, tg = repo.resolve_call(h, c)
+        for _k, t, _c in tg:
+            if t is not None and t.mod is h.mod and t.name.startswith("_") and all(t.qn != x.qn for x, _n in funcs):
+                w = flatten(repo, t)
+                funcs.append((w, {(f"param:{x}",) for x in w.params}))
+    for f, nodes in funcs:
+        p = L.prov(repo, f)
+        pm = L.parents_of(f)
+        explicit: Set[str] = set()
+        uninterpreted: List[ast.AST] = []
+
+        def sub(e, suffix=(), p=p, nodes=nodes):
+            """e is (a field of) the lifted node"""
+            try:
+                tr = p.trace(e)
+            except (KeyError, RecursionError):
+                return False
+            return bool(tr) and all(x[:len(x) - len(suffix)] in nodes and x[len(x) - len(suffix):] == suffix for x in tr)
+
+        def in_test(e, pm=pm):
+            par = pm.get(e)
+            return (isinstance(par, (ast.If, ast.IfExp, ast.While)) and par.test is e) or isinstance(par, ast.BoolOp) or \
+                (isinstance(par, ast.UnaryOp) and isinstance(par.op, ast.Not))
+
+        def matcher(e, sub=sub, in_test=in_test, explicit=explicit, uninterpreted=uninterpreted):
+            if isinstance(e, ast.Attribute) and isinstance(e.ctx, ast.Load) and e.attr == "is_leaf" and sub(e.value):
+                explicit.add("leaf")
+                return "leaf"
+            if isinstance(e, ast.Attribute) and isinstance(e.ctx, ast.Load) and e.attr == "children" and in_test(e) and sub(e.value):
+                explicit.add("leaf")
+                return "!leaf"      # truth value of the operands
+            if isinstance(e, ast.Compare) and len(e.ops) == 1:
+                l, r_, op = e.left, e.comparators[0], type(e.ops[0])
+                if isinstance(l, ast.Call) and isinstance(l.func, ast.Name) and l.func.id == "len" and len(l.args) == 1 and \
+                        isinstance(r_, ast.Constant) and isinstance(r_.value, int) and sub(l.args[0], ("attr:children",)):
+                    if (op, r_.value) in ((ast.Eq, 0), (ast.Lt, 1), (ast.LtE, 0)):
+                        explicit.add("leaf")
+                        return "leaf"
+                    if (op, r_.value) in ((ast.NotEq, 0), (ast.Gt, 0), (ast.GtE, 1)):
+                        explicit.add("leaf")
+                        return "!leaf"
+            if isinstance(e, ast.Call) and callee_name(e) == "isinstance" and len(e.args) == 2 and sub(e.args[0], ("attr:value",)):
+                t = e.args[1]
+                names = [x.id if isinstance(x, ast.Name) else None for x in (t.elts if isinstance(t, ast.Tuple) else [t])]
+                if names == ["PDDLFunction"]:
+                    explicit.add("isfn")
+                    return "isfn"
+                uninterpreted.append(e)
+            return None
+
+        G = L.Guards(f, matcher)
+        if {"leaf", "isfn"} <= explicit and any(callee_name(c) == "AnyNode" for c in L.calls_in(f.node)):
+            if uninterpreted:
+                raise AnalysisError(f"{f.qn}: the test {unparse(uninterpreted[0], 60)} on the value of a tree node is not interpreted")
+            return f, p, nodes, G
+    raise AnalysisError("ground_numeric_calculation_tree: the node-by-node grounding (tests `is a leaf` / `holds a PDDLFunction`, AnyNode "
+                        "constructions) was not recognised")
+
+
+def rule_numtree(repo: Repo, rid: str = "C20.numtree") -> RuleResult:
+    """the grounded numeric expression is the schema's expression node by node: an operator node keeps its operator and has the grounded
+    operands in their positions, a number leaf is copied as a leaf, a fluent leaf holds the grounded function; every kind of node yields a
+    node.  Decided by the provenance of the returned node under the three valuations of (is a leaf, holds a fluent)."""
+    r = RuleResult(rid, "numeric trees are grounded node by node: operator nodes keep operator and operand positions (each operand grounded "
+                   "recursively), number leaves are copied, fluent leaves hold the grounded function; every case returns a constructed node",
+                   "grounded numeric expressions are exactly the schema's expressions with each parameter replaced; nothing is added or omitted")
+    h = L.fn(repo, f"{GU}::ground_numeric_calculation_tree")
+    f, p, nodes, G = _numtree_function(repo, h)
+    g = C.cfg_of(f.node)
+    # the recursive worker: calls that were left as calls because their target is the function being read
+    rec_names = set()
+    for c in L.calls_in(f.node):
+        _cat, tg = repo.resolve_call(f, c)
+        for _k, t, _c in tg:
+            if t is not None and (t.qn == f.qn or t.qn in set(getattr(f, "inlined", ()))):
+                rec_names.add(callee_name(c))
+    returns = [n for n in g.nodes() if g.kind[n] == "return" and isinstance(g.stmt[n], ast.Return) and g.stmt[n].value is not None]
+
+    def node_prefix(x):
+        for n_ in nodes:
+            if x[:len(n_)] == n_:
+                return len(n_)
+        return None
+
+    for case, valuation in NUMTREE_CASES:
+        r.site(f"{f.qn} [{case}]")
+        seen = G.reach(valuation)
+        under = G.under(valuation, seen)
+        live = [n for n in returns if n in seen]
+        if not live:
+            raise AnalysisError(f"{f.qn}: no return is reachable for the case {case} ({valuation})")
+        R = set()
+        for n in live:
+            for x in p.trace(g.stmt[n].value, under=under):
+                # the entry point wraps the grounded root into the expression tree: what is wrapped is the result
+                cut = next((i for i, s_ in enumerate(x) if s_.endswith(":NumericalExpressionTree")), None)
+                if cut is not None:
+                    x = x[:cut]
+                elif x[0] in ("fresh:NumericalExpressionTree", "ext:NumericalExpressionTree"):
+                    continue
+                if x:
+                    R.add(x)
+        built = ("ext:AnyNode",) in R or ("fresh:AnyNode",) in R
+        stray = sorted(x for x in R if x not in (("ext:AnyNode",), ("fresh:AnyNode",)) and not x[-1].endswith(":AnyNode"))
+        values = {x[:-1] for x in R if x[-1] == VALUE_STEP}
+        operands = {x[:-1] for x in R if x[-1] in CHILDREN_STEPS}
+        problems = []
+        if not built or stray:
+            what = "nothing / None" if any(x[0] == "const:None" for x in stray) else (" . ".join(stray[0][:4]) if stray else "no constructed node")
+            problems.append(("result", f"the result can be {what} instead of a newly constructed tree node: the expression (or this part of it) is "
+                             f"omitted / still the schema's own node"))
+        elif case == "fluent-leaf":
+            ok = ("fresh:PDDLFunction",) in values and all(x == ("fresh:PDDLFunction",) or x[-1].endswith(":PDDLFunction") for x in values)
+            if not ok:
+                bad = sorted(x for x in values if not (x == ("fresh:PDDLFunction",) or x[-1].endswith(":PDDLFunction")))
+                problems.append(("value", f"the node's value is not the PDDLFunction constructed by the grounding "
+                                 f"({' . '.join((bad[0] if bad else ('no value',))[-3:])}): the fluent is not substituted / not a fluent any more"))
+        else:
+            ok = bool(values) and all(node_prefix(x) is not None and x[node_prefix(x):] == ("attr:value",) for x in values)
+            if not ok:
+                bad = sorted(x for x in values if not (node_prefix(x) is not None and x[node_prefix(x):] == ("attr:value",)))
+                problems.append(("value", f"the node's value is not the value of the lifted node ({' . '.join((bad[0] if bad else ('no value',))[-3:])}): "
+                                 f"{'the operator' if case == 'operator' else 'the number'} is not kept"))
+        if built and not stray:
+            if case != "operator":
+                if operands:
+                    problems.append(("operands", "a leaf of the lifted tree is grounded to a node with operands (read from a node that has none)"))
+            else:
+                pairs, direct, odd = set(), [], []
+                for x in operands:
+                    k = node_prefix(x)
+                    if k is None or len(x) < k + 2 or x[k] != "attr:children":
+                        continue
+                    rest = x[k + 1:]
+                    src = rest[0]
+                    if src.startswith(("item:", "unpack:")) and src.split(":", 1)[1].lstrip("-").isdigit():
+                        spos = int(src.split(":", 1)[1])
+                    elif src == "elem":
+                        spos = "each"
+                    else:
+                        odd.append(x)
+                        continue
+                    if len(rest) < 3 or not (rest[1].split(":")[-1] in rec_names and rest[1].startswith(("arg", "kw:"))):
+                        if len(rest) == 2 or not any(s_.split(":")[-1] in rec_names for s_ in rest):
+                            direct.append(x)
+                        else:
+                            odd.append(x)
+                        continue
+                    dst = rest[2]
+                    if dst.startswith("in:") and dst[3:].isdigit() and len(rest) == 3:
+                        pairs.add((spos, int(dst[3:])))
+                    elif (dst == "in:elt" or dst.startswith(("in:append@", "in:add@"))) and len(rest) == 3:
+                        pairs.add((spos, "each"))
+                    else:
+                        odd.append(x)
+                want = {(i, i) for i in OPERAND_POSITIONS}
+                if not operands or (not pairs and not direct and not odd):
+                    problems.append(("operands", "the grounded operator node gets no grounded operands: the operands of the expression are omitted"))
+                elif direct:
+                    problems.append(("operands", f"an operand of the lifted node is attached without being grounded ({' . '.join(direct[0][-4:])})"))
+                elif odd:
+                    raise AnalysisError(f"{f.qn}: the construction of the operands is not interpreted ({' . '.join(odd[0][-5:])})")
+                elif pairs != want and pairs != {("each", "each")}:
+                    problems.append(("operands", f"(lifted operand, grounded position) pairs are {sorted(pairs, key=str)}; expected {sorted(want)}: "
+                                     f"an operand is dropped / duplicated / moved"))
+        if problems:
+            for what, text in problems:
+                r.fail(Finding(rid, f, f"numeric-node:{case}:{what}", f"{case} {valuation}: {text}"))
+        else:
+            r.ok({"case": case, "valuation": dict(valuation), "value": "fresh PDDLFunction" if case == "fluent-leaf" else "lifted node's value",
+                  "operands": "grounded recursively, position by position" if case == "operator" else None})
+    r.require_sites(3)
+    return r
+
+
 def rules(repo: Repo, tier: str) -> List[RuleResult]:
     from . import c07
     grounding = lambda f: f.mod.short in ("models.grounding_utils", "models.grounded_precondition", "models.grounded_effect", "models.pddl_operator")
     return [rule_zip(repo), rule_positional(repo), rule_constants(repo), rule_complete(repo), c02.rule_translate(repo, "C20.translate"),
             # a grounded literal carries ITS argument types: it must not share (and overwrite) the domain's declaration or the action schema
             c07.rule_write(repo, "C20.purity", floor=10, only=grounding),
-            c01.rule_dupkeys(repo, "C20.dupkeys", [f"{GU}::ground_numeric_calculation_tree"]), rule_freshleaf(repo)]
+            c01.rule_dupkeys(repo, "C20.dupkeys", [f"{GU}::ground_numeric_calculation_tree"]), rule_freshleaf(repo), rule_numtree(repo)]
